@@ -416,6 +416,7 @@ type FuncSpec struct {
 	Pure      bool
 	Inline    bool
 	Trusted   bool // contract assumed, body not verified (only for listed reasons)
+	Residual  bool // interface-method contract used only for dynamic types outside the module
 	Params    []ParamDecl
 	Results   []ParamDecl
 	Requires  []Clause
@@ -478,7 +479,7 @@ func newContractSet() *ContractSet {
 var clauseKeywords = map[string]bool{
 	"requires": true, "ensures": true, "modifies": true, "loop": true, "invariant": true,
 	"decreases": true, "func": true, "extern": true, "spec": true, "lemma": true, "pure": true,
-	"inline": true, "panics": true, "trusted": true, "induction": true, "use": true, "def": true, "call": true, "apply": true, "apply_head": true, "opaque": true,
+	"inline": true, "panics": true, "trusted": true, "induction": true, "use": true, "def": true, "call": true, "apply": true, "apply_head": true, "opaque": true, "residual": true,
 }
 
 // parseContractText parses the body of one or more /*@ ... @*/ blocks (already
@@ -669,6 +670,10 @@ func (cs *ContractSet) parseContractText(text, pkgPath, file string) error {
 		case "trusted":
 			if curF != nil {
 				curF.Trusted = true
+			}
+		case "residual":
+			if curF != nil {
+				curF.Residual = true
 			}
 		case "panics":
 			if curF != nil {
